@@ -222,6 +222,16 @@ Definition step (E : env) (c : cls) (s : inst) (o : op) : inst * outcome :=
   | (_, kw) => assign_all E c s kw
   end.
 
+(* READING an attribute that has no entry yet stores its default value — unvalidated — in the dictionary
+   (getattr_trait, ctraits.c: default_value_for, then PyDict_SetItem); reading an attribute that has one changes nothing.
+   A history may start on an instance some of whose attributes have been read: pre_state *)
+Definition read_attr (c : cls) (s : inst) (n : Z) : inst :=
+  match trait_of c n, get s n with
+  | Some (_, dflt), None => set s n dflt
+  | _, _ => s
+  end.
+Definition pre_state (c : cls) (pre : list Z) : inst := fold_left (read_attr c) pre [].
+
 Fixpoint run (E : env) (c : cls) (s : inst) (ops : list op) : list (inst * outcome) :=
   match ops with
   | [] => []
